@@ -15,6 +15,9 @@ import (
 type Spec struct {
 	*P
 	S *Schemas
+	// SkipDepositChecks models zrnt's KickStartState ("ignore signatures and proofs"): every deposit
+	// signature counts as valid and Merkle proofs are not checked. Never set for spec-conformance runs.
+	SkipDepositChecks bool
 }
 
 func NewSpec(p *P) *Spec { return &Spec{P: p, S: NewSchemas(p)} }
